@@ -18,7 +18,7 @@
    signing key"; limits as exact script length and conservative static bounds).  The last
    conjunct is checked on the implementation's own parser in every run (harness). *)
 From Coq Require Import List Bool NArith Permutation.
-From Verif Require Import PolicyVal PolicyValProofs PolicyValWorlds PolicyValidator PolicyValEntry PolicyValSat
+From Verif Require Import PolicyVal PolicyValProofs PolicyValWorlds PolicyValStruct PolicyValidator PolicyValEntry PolicyValSat
   PolicyValSigned PolicyValSpend.
 Import ListNotations.
 Local Open Scope N_scope.
@@ -84,19 +84,36 @@ Theorem C08_frag_restrictions : forall c kk m att,
 Proof. exact frag_restrictions. Qed.
 Print Assumptions C08_frag_restrictions.
 
-(* the resource limits of the context, spelled out: the script length is that of the model's
-   encoding (tied to encode().len() on every output of a run); the other figures are static
-   over-approximations of what any execution path can use *)
+(* the resource limits of the context, spelled out.  Script length: that of the model's encoding
+   (tied to encode().len() on every output of a run) and the library's two own size figures.
+   Executed non-push opcodes (every opcode above OP_16 of the script as consensus counts them +
+   the keys of the CHECKMULTISIGs of the worst satisfaction), witness items, scriptSig bytes and
+   stack elements of the worst satisfaction: the C09 model [ExtModel.ext_of] of the library's
+   ExtData, recomputed from the OUTPUT's structure (C09 proves them to be upper bounds of the
+   satisfier's witnesses and static_ops to be the exact opcode count of the encoding). *)
 Theorem C08_limits_spelled : forall c kk m, limits_ok c kk m = true ->
-  match c with
-  | Bare => N.of_nat (length (encode (val_keyenv kk) m)) <= 10000 /\ ops_bound kk m <= 201
-  | Legacy => N.of_nat (length (encode (val_keyenv kk) m)) <= 520 /\ ops_bound kk m <= 201 /\ wit_bytes kk m <= 1650
-  | Segwitv0 => N.of_nat (length (encode (val_keyenv kk) m)) <= 3600 /\ ops_bound kk m <= 201
-                /\ wit_items m + 1 <= 100 /\ stack_bound kk m <= 1000
-  | Tap => stack_bound kk m <= 1000
-  end.
+  N.of_nat (length (encode (val_keyenv kk) m)) <= MAX_SCRIPT_SIZE_CTX c
+  /\ pk_cost_of c kk m <= MAX_SCRIPT_SIZE_CTX c
+  /\ lib_script_size c kk m <= MAX_SCRIPT_SIZE_CTX c
+  /\ match c with
+     | Bare => fits (exec_ops c kk m) 201
+     | Legacy => fits (exec_ops c kk m) 201 /\ fits (ssig_bytes c kk m) 1650
+     | Segwitv0 => fits (exec_ops c kk m) 201 /\ fits (option_map (N.add 1) (wit_count c kk m)) 100
+                   /\ fits (stack_count c kk m) 1000
+     | Tap => forall n, stack_count c kk m = Some n -> n <= 1000
+     end.
 Proof. exact limits_spelled. Qed.
 Print Assumptions C08_limits_spelled.
+
+(* policies too large for truth tables (near-limit stream): the structural test is sound, and on
+   small policies the validator's test IS the exact truth-table decision *)
+Theorem C08_equiv_dec_sound : forall p q, equiv_dec p q = true -> forall W, evals W p = evals W q.
+Proof. exact equiv_dec_sound. Qed.
+Print Assumptions C08_equiv_dec_sound.
+Theorem C08_equiv_dec_small : forall p q, small_enough p q = true ->
+  (equiv_dec p q = true <-> forall W, evals W p = evals W q).
+Proof. exact equiv_dec_small. Qed.
+Print Assumptions C08_equiv_dec_small.
 
 (* Taproot outputs *)
 Theorem C08_validator_tr : forall kk pol ik inpol dl expected,
